@@ -594,6 +594,126 @@ macro_rules! for_giants {
     };
 }
 
+/// The width sweep: every digit count N = 1..33 of every digit type -- 132 unsigned/signed type pairs at 84
+/// widths from 8 to 2112 bits -- split by width into four chunks (`for_sweep0!` .. `for_sweep3!`, the chunk of
+/// a width w = 8x is (x + x/4 + x/16 + x/64) mod 4, which gives every chunk all four digit types and all residues of N) so that the four `<recorder>_s<k>` binaries compile in parallel.  The properties
+/// quantify over "every digit count N >= 1"; `for_matrix!` samples 22 widths densely, the sweep runs the same
+/// drivers with the quick operand sets on a complete initial segment of digit counts, so that a slip tied to
+/// one digit count, one residue class of N or one (digit type, N) relation has nowhere to hide below N = 34.
+#[macro_export]
+macro_rules! for_sweep0 {
+    ($mac:ident) => {
+        $mac!(56; (BUintD8<7>, BIntD8<7>));
+        $mac!(80; (BUintD8<10>, BIntD8<10>), (BUintD16<5>, BIntD16<5>));
+        $mac!(104; (BUintD8<13>, BIntD8<13>));
+        $mac!(152; (BUintD8<19>, BIntD8<19>));
+        $mac!(176; (BUintD8<22>, BIntD8<22>), (BUintD16<11>, BIntD16<11>));
+        $mac!(200; (BUintD8<25>, BIntD8<25>));
+        $mac!(224; (BUintD8<28>, BIntD8<28>), (BUintD16<14>, BIntD16<14>), (BUintD32<7>, BIntD32<7>));
+        $mac!(272; (BUintD16<17>, BIntD16<17>));
+        $mac!(320; (BUintD16<20>, BIntD16<20>), (BUintD32<10>, BIntD32<10>), (BUint<5>, BInt<5>));
+        $mac!(416; (BUintD16<26>, BIntD16<26>), (BUintD32<13>, BIntD32<13>));
+        $mac!(496; (BUintD16<31>, BIntD16<31>));
+        $mac!(608; (BUintD32<19>, BIntD32<19>));
+        $mac!(704; (BUintD32<22>, BIntD32<22>), (BUint<11>, BInt<11>));
+        $mac!(800; (BUintD32<25>, BIntD32<25>));
+        $mac!(896; (BUintD32<28>, BIntD32<28>), (BUint<14>, BInt<14>));
+        $mac!(1088; (BUint<17>, BInt<17>));
+        $mac!(1280; (BUint<20>, BInt<20>));
+        $mac!(1664; (BUint<26>, BInt<26>));
+        $mac!(1984; (BUint<31>, BInt<31>));
+        $mac!(2048; (BUint<32>, BInt<32>));
+    };
+}
+/// chunk 1 of the width sweep (see `for_sweep0!`)
+#[macro_export]
+macro_rules! for_sweep1 {
+    ($mac:ident) => {
+        $mac!(8; (BUintD8<1>, BIntD8<1>));
+        $mac!(32; (BUintD8<4>, BIntD8<4>), (BUintD16<2>, BIntD16<2>), (BUintD32<1>, BIntD32<1>));
+        $mac!(88; (BUintD8<11>, BIntD8<11>));
+        $mac!(112; (BUintD8<14>, BIntD8<14>), (BUintD16<7>, BIntD16<7>));
+        $mac!(128; (BUintD8<16>, BIntD8<16>), (BUintD16<8>, BIntD16<8>), (BUintD32<4>, BIntD32<4>), (BUint<2>, BInt<2>));
+        $mac!(184; (BUintD8<23>, BIntD8<23>));
+        $mac!(208; (BUintD8<26>, BIntD8<26>), (BUintD16<13>, BIntD16<13>));
+        $mac!(232; (BUintD8<29>, BIntD8<29>));
+        $mac!(304; (BUintD16<19>, BIntD16<19>));
+        $mac!(352; (BUintD16<22>, BIntD16<22>), (BUintD32<11>, BIntD32<11>));
+        $mac!(400; (BUintD16<25>, BIntD16<25>));
+        $mac!(448; (BUintD16<28>, BIntD16<28>), (BUintD32<14>, BIntD32<14>), (BUint<7>, BInt<7>));
+        $mac!(512; (BUintD16<32>, BIntD16<32>), (BUintD32<16>, BIntD32<16>), (BUint<8>, BInt<8>));
+        $mac!(736; (BUintD32<23>, BIntD32<23>));
+        $mac!(832; (BUintD32<26>, BIntD32<26>), (BUint<13>, BInt<13>));
+        $mac!(928; (BUintD32<29>, BIntD32<29>));
+        $mac!(1216; (BUint<19>, BInt<19>));
+        $mac!(1408; (BUint<22>, BInt<22>));
+        $mac!(1600; (BUint<25>, BInt<25>));
+        $mac!(1792; (BUint<28>, BInt<28>));
+    };
+}
+/// chunk 2 of the width sweep (see `for_sweep0!`)
+#[macro_export]
+macro_rules! for_sweep2 {
+    ($mac:ident) => {
+        $mac!(16; (BUintD8<2>, BIntD8<2>), (BUintD16<1>, BIntD16<1>));
+        $mac!(40; (BUintD8<5>, BIntD8<5>));
+        $mac!(64; (BUintD8<8>, BIntD8<8>), (BUintD16<4>, BIntD16<4>), (BUintD32<2>, BIntD32<2>), (BUint<1>, BInt<1>));
+        $mac!(120; (BUintD8<15>, BIntD8<15>));
+        $mac!(136; (BUintD8<17>, BIntD8<17>));
+        $mac!(160; (BUintD8<20>, BIntD8<20>), (BUintD16<10>, BIntD16<10>), (BUintD32<5>, BIntD32<5>));
+        $mac!(216; (BUintD8<27>, BIntD8<27>));
+        $mac!(240; (BUintD8<30>, BIntD8<30>), (BUintD16<15>, BIntD16<15>));
+        $mac!(256; (BUintD8<32>, BIntD8<32>), (BUintD16<16>, BIntD16<16>), (BUintD32<8>, BIntD32<8>), (BUint<4>, BInt<4>));
+        $mac!(336; (BUintD16<21>, BIntD16<21>));
+        $mac!(432; (BUintD16<27>, BIntD16<27>));
+        $mac!(480; (BUintD16<30>, BIntD16<30>), (BUintD32<15>, BIntD32<15>));
+        $mac!(544; (BUintD32<17>, BIntD32<17>));
+        $mac!(640; (BUintD32<20>, BIntD32<20>), (BUint<10>, BInt<10>));
+        $mac!(864; (BUintD32<27>, BIntD32<27>));
+        $mac!(960; (BUintD32<30>, BIntD32<30>), (BUint<15>, BInt<15>));
+        $mac!(1024; (BUintD32<32>, BIntD32<32>), (BUint<16>, BInt<16>));
+        $mac!(1344; (BUint<21>, BInt<21>));
+        $mac!(1728; (BUint<27>, BInt<27>));
+        $mac!(1920; (BUint<30>, BInt<30>));
+        $mac!(2112; (BUint<33>, BInt<33>));
+    };
+}
+/// chunk 3 of the width sweep (see `for_sweep0!`)
+#[macro_export]
+macro_rules! for_sweep3 {
+    ($mac:ident) => {
+        $mac!(24; (BUintD8<3>, BIntD8<3>));
+        $mac!(48; (BUintD8<6>, BIntD8<6>), (BUintD16<3>, BIntD16<3>));
+        $mac!(72; (BUintD8<9>, BIntD8<9>));
+        $mac!(96; (BUintD8<12>, BIntD8<12>), (BUintD16<6>, BIntD16<6>), (BUintD32<3>, BIntD32<3>));
+        $mac!(144; (BUintD8<18>, BIntD8<18>), (BUintD16<9>, BIntD16<9>));
+        $mac!(168; (BUintD8<21>, BIntD8<21>));
+        $mac!(192; (BUintD8<24>, BIntD8<24>), (BUintD16<12>, BIntD16<12>), (BUintD32<6>, BIntD32<6>), (BUint<3>, BInt<3>));
+        $mac!(248; (BUintD8<31>, BIntD8<31>));
+        $mac!(264; (BUintD8<33>, BIntD8<33>));
+        $mac!(288; (BUintD16<18>, BIntD16<18>), (BUintD32<9>, BIntD32<9>));
+        $mac!(368; (BUintD16<23>, BIntD16<23>));
+        $mac!(384; (BUintD16<24>, BIntD16<24>), (BUintD32<12>, BIntD32<12>), (BUint<6>, BInt<6>));
+        $mac!(464; (BUintD16<29>, BIntD16<29>));
+        $mac!(528; (BUintD16<33>, BIntD16<33>));
+        $mac!(576; (BUintD32<18>, BIntD32<18>), (BUint<9>, BInt<9>));
+        $mac!(672; (BUintD32<21>, BIntD32<21>));
+        $mac!(768; (BUintD32<24>, BIntD32<24>), (BUint<12>, BInt<12>));
+        $mac!(992; (BUintD32<31>, BIntD32<31>));
+        $mac!(1056; (BUintD32<33>, BIntD32<33>));
+        $mac!(1152; (BUint<18>, BInt<18>));
+        $mac!(1472; (BUint<23>, BInt<23>));
+        $mac!(1536; (BUint<24>, BInt<24>));
+        $mac!(1856; (BUint<29>, BInt<29>));
+    };
+}
+/// no giants in the sweep binaries
+#[macro_export]
+macro_rules! for_nothing {
+    ($mac:ident) => {};
+}
+
+
 /// the primitive integers, used to calibrate the specification (a disagreement there is a
 /// specification error, never a violation)
 #[macro_export]
@@ -607,12 +727,26 @@ macro_rules! for_prims {
     };
 }
 
+/// `--width w[,w...]`: restrict a run to some widths (None = all widths of the matrix)
+pub struct WidthSel(pub Option<Vec<u32>>);
+impl WidthSel {
+    pub fn map_or<F: Fn(u32) -> bool>(&self, d: bool, f: F) -> bool {
+        match &self.0 {
+            None => d,
+            Some(v) => v.iter().any(|x| f(*x)),
+        }
+    }
+    pub fn is_some(&self) -> bool {
+        self.0.is_some()
+    }
+}
+
 /// command line: <out.ndjson> [--seed N] [--tier quick|thorough] [--only-width W] [--prims]
 pub struct Cli {
     pub out: String,
     pub seed: u64,
     pub tier: String,
-    pub only_width: Option<u32>,
+    pub only_width: WidthSel,
     pub prop: String,
     pub extra: Vec<String>,
 }
@@ -621,7 +755,7 @@ pub static CHK_OVERRIDE: std::sync::OnceLock<String> = std::sync::OnceLock::new(
 
 pub fn parse_cli() -> Cli {
     let a: Vec<String> = std::env::args().collect();
-    let mut c = Cli { out: "-".into(), seed: 0, tier: "quick".into(), only_width: None, prop: String::new(), extra: vec![] };
+    let mut c = Cli { out: "-".into(), seed: 0, tier: "quick".into(), only_width: WidthSel(None), prop: String::new(), extra: vec![] };
     let mut i = 1;
     while i < a.len() {
         match a[i].as_str() {
@@ -638,7 +772,7 @@ pub fn parse_cli() -> Cli {
                 i += 1;
             }
             "--width" => {
-                c.only_width = Some(a[i + 1].parse().expect("width"));
+                c.only_width = WidthSel(Some(a[i + 1].split(',').map(|x| x.parse().expect("width")).collect()));
                 i += 1;
             }
             "--prop" => {
